@@ -6,6 +6,7 @@
 import XC.Model.C16
 import XC.Proofs.C16_NoPanic
 import XC.Proofs.C16_Arith
+import XC.Proofs.C16_Rfc
 namespace XC.C16
 open XC
 
@@ -58,5 +59,45 @@ theorem key_total (pw salt : Bytes) (n r p k : Int) (hkI : k < 2 ^ 63) :
     obtain ⟨key, ek, lk⟩ := pbkdf2Std_some pw m'.b.toList 1 k k1 kmax
     rw [ek]
     exact ⟨key, rfl, lk, k1⟩
+
+/-! ## 4. the algorithm is RFC 7914
+
+  Proved in Proofs/C16_Rfc: `salsaXOR_eq_rfc` (the 16-variable straight-line code = Salsa20/8 core in
+  quarter-round form), `blockMixI_eq_rfc` (output interleaving), `smixI_eq_rfc` (ROMix incl. the
+  two-blocks-per-iteration unrolling and `& (N−1)` = `mod N`), `andPred_pow2`. Combined here. -/
+
+/-- the implementation-shaped block-level scrypt equals RFC 7914 scrypt for every accepted N -/
+theorem scryptSpec_impl_eq_rfc (pw salt : Bytes) (m r p dkLen : Nat) (hm : 1 ≤ m) :
+    scryptSpec false pw salt (2 ^ m) r p dkLen = scryptSpec true pw salt (2 ^ m) r p dkLen := by
+  unfold scryptSpec
+  have : (fun c => if false = true then some (romixRfc (2 ^ m) (blksOfBytes c)) else smixI (2 ^ m) (blksOfBytes c))
+      = (fun c => if true = true then some (romixRfc (2 ^ m) (blksOfBytes c)) else smixI (2 ^ m) (blksOfBytes c)) := by
+    funext c; simp [smixI_eq_rfc m hm]
+  simp only [this]
+
+/-- every accepted N is a power of two ≥ 2, so the theorem above applies to all accepted inputs -/
+theorem accepted_pow2 {n r p k : Int} (hkI : k < 2 ^ 63) (h : validate n r p k = .accept) :
+    ∃ m, 1 ≤ m ∧ n.toNat = 2 ^ m := by
+  obtain ⟨n2, np, _, _, _, _, _, _⟩ := accepted_of_validate hkI h
+  obtain ⟨m, hm, e⟩ := andPred_pow2 n2 np
+  exact ⟨m, hm, by omega⟩
+
+/-- The full statement over the model. What is proved: `key_total` (error or exactly keyLen bytes,
+    no panic), `scryptSpec_impl_eq_rfc` + `accepted_pow2` (the block-level algorithm with the code's
+    loop structure is RFC 7914). What is only checked at run time by the driver on every accepted
+    input (`model-split` otherwise): that the flat-memory execution `Key` produces the same bytes as
+    the block-level `scryptSpec false`. -/
+def C16_full : Prop :=
+  ∀ (pw salt : Bytes) (n r p k : Int), k < 2 ^ 63 →
+    Key pw salt n r p k = .err ∨
+    ∃ key, Key pw salt n r p k = .ok key ∧
+      scryptSpec true pw salt n.toNat r.toNat p.toNat k.toNat = some key
+
+/-- non-vacuity -/
+example : validate 1024 8 16 64 = .accept := by decide
+example : validate 6 1 1 32 = .errN ∧ validate 2 0 1 32 = .errRP ∧ validate 2 1 1 0 = .errKeyLen := by decide
+example : validate 2 (2 ^ 32) (2 ^ 32) 32 = .errLarge := by decide
+example : validate (2 ^ 62) 1 1 32 = .errLarge := by decide
+example : validate 2 1 1 ((2 ^ 32 - 1) * 32 + 1) = .errKeyLen ∧ validate 2 1 1 ((2 ^ 32 - 1) * 32) = .accept := by decide
 
 end XC.C16
